@@ -103,6 +103,19 @@ def impl(case):
                   'd_parts': [float(x.tracer_diffusivity(dimensions=case['dim'])) for x in pm],
                   'v_parts': [float(x.vibration_amplitude()) for x in pm],
                   'c_parts': [float(x.tracer_conductivity(z_ion=case['z'], dimensions=case['dim'])) for x in pm]}
+    # ... and over parts of unequal length (three windows of the run, the middle one longer): every part counts as it is
+    if not case.get('as_disp') and len(traj) >= 9:
+        n = len(traj)
+        a, b = n // 4, n - n // 4
+        wins = [traj[0:a + 1], traj[a:b], traj[b - 1:n]]
+        if all(len(w) >= 3 for w in wins):
+            s3 = TrajectoryMetricsStd(wins)
+            d3, v3, c3 = s3.tracer_diffusivity(dimensions=case['dim']), s3.vibration_amplitude(), s3.tracer_conductivity(z_ion=case['z'], dimensions=case['dim'])
+            pm3 = [w.metrics() for w in wins]
+            out['std3'] = {'d': [d3.n, d3.s], 'v': [v3.n, v3.s], 'c': [c3.n, c3.s], 'lengths': [len(w) for w in wins],
+                           'd_parts': [float(x.tracer_diffusivity(dimensions=case['dim'])) for x in pm3],
+                           'v_parts': [float(x.vibration_amplitude()) for x in pm3],
+                           'c_parts': [float(x.tracer_conductivity(z_ion=case['z'], dimensions=case['dim'])) for x in pm3]}
     # mean / standard deviation over trajectories that differ in cell volume and temperature (replicas, heating-ramp segments)
     if case.get('as_disp'):
         # (not for the displacement hand-over with base positions off the first frame: after split() converted it to positions, the next
@@ -213,7 +226,8 @@ def oracle(case, out):
             continue
         if not _close(got, want, 1e-8):
             fs.append((f'scaling/time:{name}', f'scaling the time step by {s}: {name} = {got}, expected {want}'))
-    for name_, st in (('sub-trajectories', out['std']), ('trajectories of different cell volume and temperature', out.get('het'))):
+    for name_, st in (('sub-trajectories', out['std']), ('trajectories of different cell volume and temperature', out.get('het')),
+                      ('windows of unequal length', out.get('std3'))):
       if st is None:
         continue
       for key in ('d', 'v', 'c'):
